@@ -257,7 +257,9 @@ def skeleton(ctx, f: Fn):
         probe = n.ast
         for x in walk_no_nested(probe):
             if isinstance(x, ast.Call):
-                d = dotted(x.func) or ""
+                d = dotted(x.func) or ("?." + x.func.attr if isinstance(x.func, ast.Attribute) else "")
+                if d.endswith(".update_ac_status"):
+                    d = "<entity>.update_ac_status"  # whatever holds the looked-up entity (a local, a subscript)
                 if d == "self._socket.send":
                     pol = next((k.value for k in x.keywords if k.arg == "retry_policy"), x.args[1] if len(x.args) > 1 else None)
                     pe = f.expand(pol, n) if pol is not None else None
@@ -290,11 +292,12 @@ def skeleton(ctx, f: Fn):
     return sorted(set(out))
 
 
-def self_reads(f: Fn):
+def self_reads(f: Fn, exclude=()):
     from ..q import inline_properties
 
     out = set()
-    node = inline_properties(f.repo, f.module, f.node, "self", f.cls) if f.cls is not None else f.node  # self.<property> reads what the property reads
+    # self.<property> reads what the property reads - except through properties that differ between the generations by design
+    node = inline_properties(f.repo, f.module, f.node, "self", f.cls, exclude=exclude) if f.cls is not None else f.node
     for x in walk_no_nested(node):
         if isinstance(x, ast.Attribute) and isinstance(x.ctx, ast.Load):
             d = dotted(x)
@@ -330,7 +333,8 @@ def r3(ctx):
                 ctx.violation(R, f"{proto}.{n5}:effects", m5 if d5 else m4, (i5.methods[n5] if d5 else i4.methods[n4]), "the same effects under the same conditions in both generations", f"AT4 only: {d4[:3]} | AT5 only: {d5[:3]}")
             else:
                 ctx.holds(R, f"{proto}.{n5}:effects", m5, i5.methods[n5], f"{len(s5)} effects agree")
-            r4_, r5_ = self_reads(f4), self_reads(f5)
+            documented = {nm for (p_, nm) in SKIP if p_ == proto}
+            r4_, r5_ = self_reads(f4, documented), self_reads(f5, documented)
             ok = r4_ == r5_ or n5 == "__init__"  # a constructor sets the state up; whether it re-reads it or uses its arguments is spelling
             ctx.check(ok, R, f"{proto}.{n5}:state-read", m5, i5.methods[n5], "both generations read the same fields of their stored records", f"AT4 only: {sorted(r4_ - r5_)} | AT5 only: {sorted(r5_ - r4_)}")
         only5 = sorted(n for n in i5.methods if n not in names4)
